@@ -102,7 +102,11 @@ class Server(base_server.BaseServer):
             # the socket is not available
             self.logger.warning('Cannot send to sid %s', sid)
             return
-        socket.send(pkt)
+        try:
+            socket.send(pkt)
+        except exceptions.SocketIsClosedError:
+            # closed by another thread since it was looked up
+            self.logger.warning('Cannot send to sid %s', sid)
 
     def get_session(self, sid):
         """Return the user session for a client.
